@@ -1,4 +1,5 @@
 import Starcal.SrcTie.Utils
+import Starcal.SrcTie.Hijri
 import Starcal.HTable
 import Starcal.HijriT
 /-! Source tie, cal_types/hijri in month-table mode: `MonthData.GetDateFromJd` (a `for jd > startJd` loop with two `break`s
@@ -331,5 +332,34 @@ example : hijri_MonthData_GetDateFromJd hijriTable 2453441 = some none := by dec
 example : hijri_MonthData_GetJdFromDate hijriTable ⟨1436, 1, 1⟩ = some (2456957, true) := by decide +kernel
 -- the start seam of the known finding, on the translated code: the table's first month is refused
 example : hijri_MonthData_GetJdFromDate hijriTable ⟨1426, 2, 1⟩ = some (0, false) := by decide +kernel
+
+/-! ### the wrappers with the month table on: `ToJd` and `GetMonthLen` (a second translation of the package with
+    `useMonthData` fixed to true; the package-level pointer `monthData` is a parameter) -/
+
+theorem hijriT_ToJd_eq (y m d : Int) (h1 : 1 ≤ m) (h2 : m ≤ 256) :
+    hijriT_ToJd hijriTable ⟨y, m, d⟩ = some (HijriT.toJdT ⟨y, m, d⟩) := by
+  have hdef : hijriT_ToJd hijriTable ⟨y, m, d⟩ = (do
+      let (jd, ok) ← hijri_MonthData_GetJdFromDate hijriTable ⟨y, m, d⟩
+      if ok then pure jd else hijri_ToJd ⟨y, m, d⟩) := rfl
+  rw [hdef, src_tableToJd, hijri_ToJd_eq y m d h1 h2]
+  unfold HijriT.toJdT
+  cases HijriT.tableToJd ⟨y, m, d⟩ <;> simp [bind, Option.bind, pure]
+
+/-- `GetMonthLen` in table mode is the gap between the table-aware `ToJd` of consecutive month starts, through the
+    code's `uint8` conversion — the model's `monthLenT` -/
+theorem hijriT_GetMonthLen_eq (y m : Int) (h1 : 1 ≤ m) (h2 : m ≤ 12) :
+    hijriT_GetMonthLen hijriTable y m = some (GoSem.u8 (HijriT.monthLenT y m)) := by
+  have hu : GoSem.u8 (m + 1) = m + 1 := GoSem.u8_id (by omega) (by omega)
+  by_cases h12 : m = 12
+  · subst h12
+    simp only [hijriT_GetMonthLen, SrcExt.lib_NewDate, bind, Option.bind, pure, decide_true, if_true,
+      hijriT_ToJd_eq (y + 1) 1 1 (by decide) (by decide), hijriT_ToJd_eq y 12 1 (by decide) (by decide), HijriT.monthLenT]
+  · have hd : decide (m = 12) = false := by simp [h12]
+    simp only [hijriT_GetMonthLen, SrcExt.lib_NewDate, bind, Option.bind, pure, hd, Bool.false_eq_true, if_false, hu,
+      hijriT_ToJd_eq y (m + 1) 1 (by omega) (by omega), hijriT_ToJd_eq y m 1 h1 (by omega), HijriT.monthLenT, h12,
+      decide_false, Bool.false_eq_true, if_false]
+
+example : hijriT_GetMonthLen hijriTable 1436 1 = some 29 := by decide +kernel
+example : hijriT_ToJd hijriTable ⟨1436, 1, 1⟩ = some 2456957 := by decide +kernel
 
 end Starcal.SrcTie
